@@ -928,7 +928,7 @@ fn raw_cases(maxdim: usize, maxnz: usize) -> Vec<Raw> {
     out
 }
 
-fn gen_raw(t: &mut Tape) -> Raw {
+pub fn gen_raw(t: &mut Tape) -> Raw {
     // start from a canonical matrix then corrupt it (or not)
     let m = t.usize_in(0, 6);
     let n = t.usize_in(0, 6);
